@@ -29,6 +29,7 @@ type sharedStreamProcess struct {
 	batches []*DeliveryMessage
 	lock    sync.RWMutex
 	state   atomic.Uint32
+	closed  atomic.Bool // 流已被关闭（分离），缓存了该进程的引用需要重新解析
 }
 
 func (c *sharedStreamProcess) Initialize(rc *ResourceController, id *ProcessId) {
@@ -90,11 +91,12 @@ func (c *sharedStreamProcess) packMessage(receiver, sender, forward *ProcessId, 
 }
 
 func (c *sharedStreamProcess) IsTerminated() bool {
-	return false
+	return c.closed.Load()
 }
 
 func (c *sharedStreamProcess) Terminate(source *ProcessId) {
-	// 该进程不注册，不会由资源控制器触发
+	// 该进程不注册，不会由资源控制器触发；流被分离时由 Shared 调用
+	c.closed.Store(true)
 }
 
 func (c *sharedStreamProcess) activation() {
@@ -157,7 +159,7 @@ func (c *sharedStreamProcess) send() {
 
 		verifhook.At("ssp.send")
 		if err := c.stream.Send(sm); err != nil {
-			c.shared.detachStream(c.address)
+			c.shared.detachStreamOf(c.address, c.stream)
 			c.shared.rc.logger().Error("ResourceController", log.Err(err))
 			verifhook.At("ssp.drop")
 			c.lock.Lock()
